@@ -166,6 +166,18 @@ func (e *emitter) nameBytes(a enc.Name) {
 	fmt.Fprintf(e.w, "BYTES %s %s\n", nameStr(a), guard(func() string { return hx(a.Bytes()) }))
 }
 
+func (e *emitter) brt(a enc.Name) {
+	e.count("BRT")
+	res := guard(func() string {
+		n, err := enc.NameFromBytes(a.Bytes())
+		if err != nil {
+			return "err"
+		}
+		return "ok " + nameStr(n)
+	})
+	fmt.Fprintf(e.w, "BRT %s %s\n", nameStr(a), res)
+}
+
 func (e *emitter) fromBytes(in []byte) {
 	e.count("FROMBYTES")
 	res := guard(func() string {
@@ -363,6 +375,8 @@ func (e *emitter) reexec(line string) bool {
 		e.comp(parseComp(f[1]), parseComp(f[2]))
 	case "BYTES":
 		e.nameBytes(parseName(f[1]))
+	case "BRT":
+		e.brt(parseName(f[1]))
 	case "FROMBYTES":
 		e.fromBytes(unhx(f[1]))
 	case "HASH":
@@ -402,7 +416,7 @@ type gen struct {
 	huge int // remaining budget of 65535/65536-byte components
 }
 
-var interestingTypes = []uint64{8, 8, 8, 8, 8, 1, 2, 32, 50, 52, 54, 56, 58, 9, 7, 49, 51, 59, 252, 253, 254, 255, 256, 65534, 65535}
+var interestingTypes = []uint64{8, 8, 8, 8, 8, 8, 8, 8, 8, 8, 8, 8, 1, 2, 32, 50, 52, 54, 56, 58, 9, 7, 49, 51, 59, 252, 253, 254, 255, 256, 65534, 65535}
 var wildTypes = []uint64{0, 65536, 65537, 1<<32 - 1, 1 << 32, 1<<32 + 1, 1<<63 - 1, 1 << 63, 1<<64 - 1}
 var specialBytes = []byte{'.', '%', '=', '/', '\\', '~', '-', '_', 'a', 'z', 'A', 'Z', '0', '9', 0, 0x7f, 0x80, 0xff, 0xb2, ' ', '+', '<', '>', '@', '[', '`', '{', ':', 0xc3, 0xa9}
 var boundaryLens = []int{252, 253, 254, 255, 256, 257, 300}
@@ -791,10 +805,15 @@ func runSweeps(e *emitter, g *gen, thorough bool) {
 			}
 			n := enc.Name{{Typ: 8, Val: []byte("a")}, c, {Typ: 50, Val: []byte{7}}}
 			e.nameBytes(n)
+			e.brt(n)
 			e.fromBytes(n.Bytes())
 			e.hash(n)
-			if t != 1 || l <= 257 {
+			// Name.String() is quadratic in the value length (string concatenation per byte): the URI functions have no
+			// length-dependent behaviour, so the quick tier prints only one 65536-byte value
+			if l <= 257 || thorough {
 				e.str(n)
+				e.rt(n)
+			} else if t == 8 && l == 65536 {
 				e.rt(n)
 			}
 			e.triple(enc.Name{c}, enc.Name{nb[len(nb)-1]}, n)
@@ -807,6 +826,7 @@ func runSweeps(e *emitter, g *gen, thorough bool) {
 		e.cstr(c)
 		e.crt(c)
 		e.nameBytes(enc.Name{c})
+		e.brt(enc.Name{c})
 		e.fromBytes(enc.Name{c}.Bytes())
 		e.str(enc.Name{c})
 		e.rt(enc.Name{c})
@@ -844,7 +864,7 @@ func runSweeps(e *emitter, g *gen, thorough bool) {
 	}
 }
 
-func runGenerated(e *emitter, g *gen, ncases int) {
+func runGenerated(e *emitter, g *gen, ncases int, thorough bool) {
 	for i := 0; i < ncases; i++ {
 		a := g.name(true)
 		b := g.mutate(a)
@@ -861,6 +881,7 @@ func runGenerated(e *emitter, g *gen, ncases int) {
 			e.comp(a[g.r.Intn(len(a))], b[g.r.Intn(len(b))])
 		}
 		e.nameBytes(a)
+		e.brt(a)
 		// NameFromBytes on the encoding, on a truncation, on a mutated copy, on a copy with one byte inserted
 		bs := a.Bytes()
 		e.fromBytes(bs)
@@ -875,7 +896,12 @@ func runGenerated(e *emitter, g *gen, ncases int) {
 		}
 		e.hash(a)
 		// URI printing and the round trip
+		saved := g.huge
+		if !thorough || i%50 != 0 {
+			g.huge = 0 // String() is quadratic in the value length; huge values go to the byte-level functions
+		}
 		u := g.name(g.r.Intn(4) == 0)
+		g.huge = saved
 		e.str(u)
 		e.rt(u)
 		if len(u) > 0 {
@@ -987,7 +1013,7 @@ func TestTrace(t *testing.T) {
 		g.huge = 40
 	}
 	runSweeps(e, g, thorough)
-	runGenerated(e, g, ncases)
+	runGenerated(e, g, ncases, thorough)
 	writeDist(e)
 }
 
